@@ -41,6 +41,8 @@ type txCase struct {
 	Blocks   int    `json:"blocks"`
 	PerBlock int    `json:"per_block"`
 	RunSeed  int64  `json:"run_seed"`
+	// Override replaces the generated input at an index by recorded bytes (replay only).
+	Override map[int]string `json:"override,omitempty"`
 }
 
 const txMaxLen = 40 << 10 // MaxTxSize of the chainsim genesis is 32 KiB; some inputs exceed it on purpose
@@ -145,8 +147,9 @@ func (f *txFuzzer) OnTap(h *chainsim.History, stage, app string, ctx *cmt.Contex
 	}
 }
 
-func (f *txFuzzer) OnBlock(*chainsim.History, *chainsim.Block, []*chainsim.GenTx, *chainsim.BlockResult) {}
-func (f *txFuzzer) OnEnd(*chainsim.History)                                                           {}
+func (f *txFuzzer) OnBlock(*chainsim.History, *chainsim.Block, []*chainsim.GenTx, *chainsim.BlockResult) {
+}
+func (f *txFuzzer) OnEnd(*chainsim.History) {}
 
 func (f *txFuzzer) witness(fi *fuzzIn, mode string) map[string]any {
 	return map[string]any{"target": "tx", "case": f.c, "height": fi.height, "index": fi.idx, "mode": mode, "aux": fi.in.Aux, "op": fi.in.Op,
@@ -438,6 +441,11 @@ func (f *txFuzzer) extra(g *chainsim.TxGen, height int64, base []*chainsim.GenTx
 		idx := f.nextIdx
 		f.nextIdx++
 		in := f.gen(inputRng(f.c.RunSeed, "tx", f.c.Index, idx), base, nn)
+		if h, ok := f.c.Override[idx]; ok {
+			if b, err := hex.DecodeString(h); err == nil {
+				in.Data = b
+			}
+		}
 		if len(in.Data) > txMaxLen {
 			in.Data = in.Data[:txMaxLen]
 		}
